@@ -52,7 +52,7 @@ pub fn valid_coords(seed: u64, thorough: bool) -> Vec<ReqCoord> {
     }
     coords.push(ReqCoord { name: "signal", alts });
     let mut alts: Vec<Box<dyn Fn(&mut Req) + Send + Sync>> = vec![Box::new(|_| {})];
-    for c in 1..6u8 {
+    for c in 1..7u8 {
         alts.push(Box::new(move |q: &mut Req| q.ctx = c));
     }
     coords.push(ReqCoord { name: "tree-context", alts });
